@@ -178,10 +178,12 @@ def response_class(iface: str, subclass: bool = False):
     return Tagged
 
 
-def run_response(iface: str, method: str, size, chunk, range_hdr: Optional[str], if_range: Optional[str], ctype: str, K: int, resp=None, earlier=None):
+def run_response(iface: str, method: str, size, chunk, range_hdr: Optional[str], if_range: Optional[str], ctype: str, K: int, resp=None, earlier=None,
+                 mtime: float = MTIME):
     """Run the real FileResponse on the symbolic file. Returns (status, headers list[(str,str)], body items, extra).
     earlier: Range header of a request the SAME response object answered before (a FileResponse mounted as an application serves many)."""
     st = Stat(size)
+    st.st_mtime = st.st_ctime = mtime
     if resp is None:
         resp = (W if iface == "wsgi" else A).FileResponse("/d/file.bin", content_type=ctype, stat_result=st, chunk_size=chunk)
     if earlier is not None:
@@ -493,7 +495,7 @@ def check_path(e: Engine, job, out, size, specs_sym, etag_ok: bool):
 
 
 # ------------------------------------------------------------------ concrete replay on a real file
-def concrete_run(iface, method, size, chunk, range_hdr, if_range_kind, ctype, reuse=False, subclass=False):
+def concrete_run(iface, method, size, chunk, range_hdr, if_range_kind, ctype, reuse=False, subclass=False, mtime_ns=None):
     """Unshimmed real FileResponse on a real temp file. Returns (status, headers, body bytes, problems list)."""
     import tempfile
     data = bytes((i * 7 + 3) % 251 for i in range(size))
@@ -501,7 +503,8 @@ def concrete_run(iface, method, size, chunk, range_hdr, if_range_kind, ctype, re
         p = _os.path.join(d, "file.bin")
         with open(p, "wb") as f:
             f.write(data)
-        _os.utime(p, (MTIME, MTIME))
+        ns = mtime_ns if mtime_ns is not None else int(MTIME) * 10 ** 9
+        _os.utime(p, ns=(ns, ns))
         st = _os.stat(p)
         if_range = None
         if if_range_kind == "etag":
@@ -579,10 +582,10 @@ class _Protocol(Exception):
     pass
 
 
-def concrete_problem(iface, method, size, chunk, range_hdr, if_range_kind, ctype, reuse=False, subclass=False) -> Optional[str]:
+def concrete_problem(iface, method, size, chunk, range_hdr, if_range_kind, ctype, reuse=False, subclass=False, mtime_ns=None) -> Optional[str]:
     """Independent concrete oracle for one request (used for replay and counterexample confirmation)."""
     try:
-        status, headers, body, data = concrete_run(iface, method, size, chunk, range_hdr, if_range_kind, ctype, reuse, subclass)
+        status, headers, body, data = concrete_run(iface, method, size, chunk, range_hdr, if_range_kind, ctype, reuse, subclass, mtime_ns)
         if reuse:
             range_hdr = None
     except _Protocol as ex:
@@ -676,11 +679,13 @@ def run_job(job) -> report.JobResult:
     def fn():
         cur().path_notes["size"] = size
         st = Stat(size)
+        mtime = job.get("mtime_ns", int(MTIME) * 10 ** 9) / 1e9
+        st.st_mtime = st.st_ctime = mtime
         if_range = None
         if ifk == "etag":
             if_range = '"' + R.FileResponseMixin.generate_etag(st) + '"'
         elif ifk == "lastmod":
-            if_range = formatdate(MTIME, usegmt=True)
+            if_range = formatdate(mtime, usegmt=True)  # exactly what the response announces as Last-Modified
         elif ifk == "weak":
             if_range = 'W/"' + R.FileResponseMixin.generate_etag(st) + '"'
         elif ifk == "unquoted":
@@ -698,7 +703,7 @@ def run_job(job) -> report.JobResult:
         if job.get("reuse"):
             # the same response object answered a (possibly multi-range) request before; now a plain request
             return run_response(job["iface"], job["method"], size, chunk, None, None, job["ctype"], K, earlier=range_hdr)
-        return run_response(job["iface"], job["method"], size, chunk, range_hdr, if_range, job["ctype"], K)
+        return run_response(job["iface"], job["method"], size, chunk, range_hdr, if_range, job["ctype"], K, mtime=mtime)
 
     def on_path(e, r):
         kind, v = r
@@ -727,14 +732,14 @@ def run_job(job) -> report.JobResult:
         sz = m.eval(size_v, True).as_long()
         ch = m.eval(chunk_v, True).as_long()
         hdr_txt = C3.header_of(forms, [m.eval(a, True).as_long() for a in Av], [m.eval(b, True).as_long() for b in Bv]) if forms else job.get("raw_range")
-        wit = {"iface": job["iface"], "method": job["method"], "size": sz, "chunk_size": ch, "range": hdr_txt, "if_range": ifk, "content_type": job["ctype"], "reuse": bool(job.get("reuse")), "subclass": bool(job.get("subclass"))}
+        wit = {"iface": job["iface"], "method": job["method"], "size": sz, "chunk_size": ch, "range": hdr_txt, "if_range": ifk, "content_type": job["ctype"], "reuse": bool(job.get("reuse")), "subclass": bool(job.get("subclass")), "mtime_ns": job.get("mtime_ns")}
         small = sz <= 200000
         if klass is not None:
             reproduced: Optional[bool] = None
             cp = None
             if small:
                 with shims.off():
-                    cp = concrete_problem(job["iface"], job["method"], sz, ch, hdr_txt, ifk_concrete(ifk), job["ctype"], bool(job.get("reuse")), bool(job.get("subclass")))
+                    cp = concrete_problem(job["iface"], job["method"], sz, ch, hdr_txt, ifk_concrete(ifk), job["ctype"], bool(job.get("reuse")), bool(job.get("subclass")), job.get("mtime_ns"))
                 reproduced = cp is not None
             if twin:
                 reproduced = True
@@ -743,7 +748,7 @@ def run_job(job) -> report.JobResult:
         res.kind(outcome)
         if small and (res["validated"] < 40 or res["paths"] % 7 == 0):
             with shims.off():
-                cp = concrete_problem(job["iface"], job["method"], sz, ch, hdr_txt, ifk_concrete(ifk), job["ctype"], bool(job.get("reuse")), bool(job.get("subclass")))
+                cp = concrete_problem(job["iface"], job["method"], sz, ch, hdr_txt, ifk_concrete(ifk), job["ctype"], bool(job.get("reuse")), bool(job.get("subclass")), job.get("mtime_ns"))
             if cp is not None:
                 res["harness_errors"].append(f"path holds symbolically but the real code fails concretely: {wit} -> {cp}")
             res["validated"] += 1
@@ -783,6 +788,11 @@ def jobs(tier: str):
                     out.append(dict(name=name, family="data", iface=iface, method=method, forms=forms, if_range=ifk,
                                     ctype="text/plain", K=K, weight=(9 ** k) * (3 if iface == "asgi" else 1)))
         # octet-stream adds content-disposition (download name) to the framing
+        # modification times with a fraction: the Last-Modified the response announces and the date If-Range is compared with are the same text
+        for tag, ns in (("frac-.9999997", 1700000000_999999700), ("frac-.5", 1700000000_500000000), ("frac-.000001", 1700000000_000001000)):
+            for ifk in ("lastmod", "etag"):
+                out.append(dict(name=f"data/{iface}/GET/ab/mtime-{tag}/if-{ifk}", family="data", iface=iface, method="GET", forms=["ab"], if_range=ifk,
+                                ctype="text/plain", K=K, mtime_ns=ns, weight=30))
         # a subclass with its own ETag scheme: If-Range is judged against the tag the response really sends
         for ifk in ("etag", "stock-etag", None):
             out.append(dict(name=f"data/{iface}/GET/ab/subclass-etag/if-{ifk}", family="data", iface=iface, method="GET", forms=["ab"], if_range=ifk,
@@ -812,6 +822,6 @@ def jobs(tier: str):
 
 def replay(rec) -> int:
     w = rec["witness"]
-    cp = concrete_problem(w["iface"], w["method"], w["size"], w["chunk_size"], w["range"], ifk_concrete(w["if_range"]), w["content_type"], bool(w.get("reuse")), bool(w.get("subclass")))
+    cp = concrete_problem(w["iface"], w["method"], w["size"], w["chunk_size"], w["range"], ifk_concrete(w["if_range"]), w["content_type"], bool(w.get("reuse")), bool(w.get("subclass")), w.get("mtime_ns"))
     print(f"replay C02: {w} -> {cp}")
     return 1 if cp else 0
